@@ -76,13 +76,13 @@ def runLoads (scope : PatchScope) (writes : Bool) (versions : String → Nat) : 
 
 /-- one interpreter run: the source versions it sees (edits in between), whether it writes
     bytecode, and its loads in import order -/
-structure Run where
+structure CacheRun where
   versions : String → Nat
   writes : Bool := true
   loads : List Load
 
 /-- a history of runs over one cache directory -/
-def runHistory (scope : PatchScope) : Cache → List Run → Cache × List (List (String × CodeDesc))
+def runHistory (scope : PatchScope) : Cache → List CacheRun → Cache × List (List (String × CodeDesc))
   | c, [] => (c, [])
   | c, r :: rs =>
     let (c1, o) := runLoads scope r.writes r.versions c r.loads
